@@ -61,6 +61,10 @@ def add_contents_to_tarfile(contents_set, tar_fd, absolute_paths=False):
                     t.type = tarfile.LNKTYPE
                     t.linkname = "./{}".format(existing.location.lstrip("/"))
                     t.size = 0
+                else:
+                    # same (dev, inode) key -- or no inode information at all -- but not
+                    # linkable: it is a file of its own and its data must be stored.
+                    data = x.data.bytes_fileobj()
             else:
                 inodes[key] = x
                 data = x.data.bytes_fileobj()
